@@ -5,6 +5,11 @@ one key of attributes / extras / nsmap added, changed, removed or replaced by an
 two adjacent children exchanged) applied to an independently built twin or to t.copy(), on either
 side; equal pairs built independently (also with every dict in another insertion order) and via
 Node.copy(); the same object; pairs sharing one child object.  Both argument orders always.
+Half of the trees are built the way the library's users build them (add_child, then add_namespace /
+set_nsmap on the finished tree), so that nsmap dict OBJECTS are shared down the tree; snapshots record
+the sharing classes and replays reproduce them.  History: every edited pair is compared once before the
+edit and again afterwards on the same objects; every answer is compared with the answer on freshly built
+identical trees and with a repeated call.
 
 (S) statement search: Node.is_equal against an independent plain-Python deep comparison of the
 two snapshots (dicts as dicts, children in order), for every pair of DISTINCT trees.
@@ -77,6 +82,65 @@ def shuffled_dicts(sn, rng):
         out[f] = d
     out["kids"] = [shuffled_dicts(k, rng) for k in sn["kids"]]
     return out
+
+
+def snap_sh(node, cls=None):
+    """nodelib.snapshot plus the identity class of every nsmap dict (which nodes share one
+    dict OBJECT), so that a replay / a fresh rebuild reproduces the sharing."""
+    cls = {} if cls is None else cls
+    sn = {"id": node.id, "name": node.name, "content": node.content, "tail": node.tail, "prefix": node.prefix,
+          "attrs": [[k, v] for k, v in node.attributes.items()], "extras": [[k, v] for k, v in node.extras.items()],
+          "nsmap": [[k, v] for k, v in node.nsmap.items()], "nsmap_cls": cls.setdefault(id(node.nsmap), len(cls))}
+    sn["kids"] = [snap_sh(c, cls) for c in node.children]
+    return sn
+
+
+def build_sh(sn, dicts=None):
+    """exact rebuild (fields set directly), one dict object per recorded nsmap class"""
+    dicts = {} if dicts is None else dicts
+    n = NL.build({**sn, "kids": []}, attach=False)
+    if "nsmap_cls" in sn:
+        if sn["nsmap_cls"] in dicts:
+            n.nsmap = dicts[sn["nsmap_cls"]]
+        else:
+            dicts[sn["nsmap_cls"]] = n.nsmap
+    for k in sn["kids"]:
+        c = build_sh(k, dicts)
+        n.children.append(c)
+        c.parent = n
+    return n
+
+
+def strip_ns(sn):
+    return {**sn, "nsmap": [], "kids": [strip_ns(k) for k in sn["kids"]]}
+
+
+def rand_ns_plan(rng, nnodes):
+    """How a caller gives a finished tree its namespaces: declarations on the root AFTER assembling
+    (add_namespace propagates and keeps one shared dict), or set_nsmap, then possibly a further
+    declaration on an inner node (its subtree then shares a second dict)."""
+    plan = []
+    if rng.random() < 0.3:
+        plan.append(["set_nsmap", [[k, rng.choice(VALS)] for k in rng.sample(KEYS, rng.randint(0, 2))]])
+    else:
+        for k in rng.sample(KEYS, rng.randint(1, 2)):
+            plan.append(["add_ns", 0, k, rng.choice(VALS)])
+    if nnodes > 1 and rng.random() < 0.5:
+        plan.append(["add_ns", rng.randrange(1, nnodes), rng.choice(KEYS), rng.choice(VALS)])
+    return plan
+
+
+def lib_build(sn, plan):
+    """Assemble with add_child (empty maps: every child ends up sharing the parent's dict), then
+    declare the namespaces the way the library's users do."""
+    root = NL.build(strip_ns(sn), attach=True)
+    for step in plan:
+        nodes = nodes_preorder(root)
+        if step[0] == "set_nsmap":
+            root.set_nsmap({k: v for k, v in step[1]})
+        else:
+            nodes[step[1] % len(nodes)].add_namespace(step[2], step[3])
+    return root
 
 
 def nodes_preorder(n):
@@ -209,8 +273,22 @@ class Collector:
 
     def add(self, kind, a, b, distinct, sig):
         ctx = self.ctx
-        sa, sb = NL.snapshot(a), NL.snapshot(b)
+        cls = {}
+        sa, sb = snap_sh(a, cls), snap_sh(b, cls)
         obs = observe(a, b)
+        again = observe(a, b)
+        if again != obs:
+            ctx.fail("C18:history:repeat", f"the same call on the same objects answers {obs} and then {again}",
+                     {"kind": "impl-vs-statement", "case_kind": kind, "a": sa, "b": sb, "observed": [obs, again]})
+        if distinct:
+            dd = {}
+            fresh = observe(build_sh(sa, dd), build_sh(sb, dd))
+            if fresh != obs:
+                ctx.fail("C18:history:" + kind.split(":")[0],
+                         f"is_equal answers {obs} on objects with a history ({kind}) but {fresh} on freshly built identical trees",
+                         {"kind": "impl-vs-statement", "case_kind": kind, "a": sa, "b": sb, "observed": obs,
+                          "observed_on_fresh_trees": fresh, "expected": deep_eq(sa, sb) if distinct else None,
+                          "note": "the answer depends on earlier calls / earlier states of the same objects"})
         objmap = {}
         lit = "(" + coq_otree(a, objmap) + ", " + coq_otree(b, objmap) + ")"
         meta = {"kind": kind, "a": sa, "b": sb, "observed": obs, "distinct_trees": distinct}
@@ -238,19 +316,26 @@ def gen_cases(ctx, col, ntrees, max_nodes, per_node_edits):
     rng = ctx.rng
     for ti in range(ntrees):
         base = rand_tree(rng, rng.randint(2, max_nodes))
-        sa = with_ids(base, "a")
+        style = "library" if rng.random() < 0.5 else "direct"
+        plan = rand_ns_plan(rng, count(base))
+        ctx.count("build-style-" + style)
+
+        def mk(tag, snap=None):
+            s = with_ids(base if snap is None else snap, tag)
+            return lib_build(s, plan) if style == "library" else NL.build(s, attach=False)
         # equal pairs
         NL.reset_store()
-        a = NL.build(sa, attach=False)
-        b = NL.build(with_ids(base, "b"), attach=False)
+        a = mk("a")
+        sa = NL.snapshot(a)                      # the effective fields (library style decides the nsmaps)
+        b = mk("b")
         col.add("equal-independent", a, b, True, (ti, "eq"))
-        c = NL.build(shuffled_dicts(with_ids(base, "c"), rng), attach=False)
+        c = mk("c", shuffled_dicts(base, rng))
         col.add("equal-dict-order", a, c, True, (ti, "eqo"))
         col.add("equal-copy", a, a.copy(), True, (ti, "copy"))
         col.add("same-object", a, a, False, (ti, "same"))
         # a pair sharing one child object
         if a.children:
-            d = NL.build(with_ids(base, "d"), attach=False)
+            d = mk("d")
             i = rng.randrange(len(a.children))
             d.children[i] = a.children[i]
             col.add("shared-child-object", a, d, False, (ti, "shared"))
@@ -263,16 +348,23 @@ def gen_cases(ctx, col, ntrees, max_nodes, per_node_edits):
                 kinds = rng.sample(kinds, per_node_edits)
             for kind in kinds:
                 NL.reset_store()
-                a = NL.build(sa, attach=False)
+                a = mk("a")
                 via_copy = rng.random() < 0.5
-                b = a.copy() if via_copy else NL.build(with_ids(base, "b"), attach=False)
+                b = a.copy() if via_copy else mk("b")
                 side = rng.choice(["second", "first"])
                 target = nodes_preorder(b if side == "second" else a)[ni]
                 avail = dict(edits_for(rng, target, ni == 0))
                 if kind not in avail:
                     continue
+                # the pair is compared BEFORE the edit (equal), then one of them is edited in place
+                # and the SAME objects are compared again
+                before = observe(a, b)
+                if before != [True, True]:
+                    ctx.fail("C18:pre-edit", f"a tree and its {'copy' if via_copy else 'twin'} compare {before} before any edit",
+                             {"kind": "impl-vs-statement", "a": snap_sh(a), "b": snap_sh(b), "observed": before, "expected": True})
                 avail[kind]()
                 ctx.count("edit-via-copy" if via_copy else "edit-via-twin")
+                ctx.count("edit-on-%s-argument" % side)
                 ctx.count("depth-of-edit=%d" % depth_of(target))
                 col.add("edit:" + kind, a, b, True, (ti, ni, kind, side, via_copy))
     NL.reset_store()
@@ -336,8 +428,9 @@ def replay(ctx, data):
         print("nothing to replay against the implementation:", r.get("kind"))
         return
     NL.reset_store()
-    a = NL.build(case["a"], attach=False)
-    b = a if case.get("kind") == "same-object" else NL.build(case["b"], attach=False)
+    dd = {}
+    a = build_sh(case["a"], dd)
+    b = a if case.get("kind") == "same-object" else build_sh(case["b"], dd)
     obs = observe(a, b)
     exp = deep_eq(case["a"], case["b"])
     print("observed", obs, "expected (distinct trees)", exp)
